@@ -1,5 +1,5 @@
 (** * C11 — Results scale linearly with energy and inversely with area *)
-From Cteepbd Require Import Model.Balance Proofs.ColFacts Proofs.EpFacts Proofs.Homog Proofs.Transform Props.C04.
+From Cteepbd Require Import Model.Balance Proofs.ColFacts Proofs.EpFacts Proofs.Homog Proofs.Transform Proofs.DataEquiv Proofs.NormLayout Props.C04.
 Open Scope Qc_scope.
 
 (** multiplying every energy value (components and demands) by k > 0, with the values of both
@@ -12,6 +12,14 @@ Theorem C11_energy : forall c fs kx area lm k, 0 < k ->
 Proof.
   intros c fs kx area lm k K D D'. apply energy_performance_scale; [exact K| |]; intros cr; now apply dom_data_cols.
 Qed.
+
+(** from the declared components: normalisation commutes with the scaling (the completed productions and the
+    reassigned auxiliary components of the scaled building are the scaled ones), so C11_energy applies to what a file
+    declares *)
+Theorem C11_normalize_scale : forall k n data, 0 < k -> wf n data ->
+  Components.normalize_data (scale_data k data)
+  = match Components.normalize_data data with Ok d => Ok (scale_data k d) | Err e => Err e end.
+Proof. exact normalize_scale. Qed.
 
 (** what "scaled result" means for the reported quantities *)
 Theorem C11_steps_scale : forall k b,
@@ -77,3 +85,4 @@ Print Assumptions C11_totals_scale.
 Print Assumptions C11_carrier_scale.
 Print Assumptions C11_ratios_unchanged.
 Print Assumptions C11_area.
+Print Assumptions C11_normalize_scale.
